@@ -73,6 +73,14 @@ Clauses(r) ==
             \* malformed tail: the parsed elements first, then an error element, then the closing brackets
             <<"repr-of-malformed-script", ~ok => (Len(t) > Len(e) /\ SubSeq(t, 1, Len(e) - 2) = SubSeq(e, 1, Len(e) - 2)
                                                   /\ SubSeq(t, Len(t) - 2, Len(t)) = <<62, 93, 41>>)>> >>
+    [] r.op = "x.hash" -> << <<"Hash", r.out.h256 = Hash256(r.in.b)>>, <<"Hash160", r.out.h160 = Hash160(r.in.b)>>,
+                             <<"bundled-ripemd160", r.out.rmd = RIPEMD160(r.in.b)>> >>
+    [] r.op = "x.textof" ->
+         << <<"str-outpoint", r.out.opstr = OutPointStr(r.in.txin.prevout)>>,
+            <<"repr-outpoint", r.out.oprepr = OutPointRepr(r.in.txin.prevout)>>,
+            <<"repr-txin", RawOps(r.in.txin.script).ok => r.out.inrepr = TxInRepr(r.in.txin)>>,
+            <<"repr-txout", RawOps(r.in.txout.script).ok => r.out.outrepr = TxOutRepr(r.in.txout)>>,
+            <<"repr-header", r.out.hdrrepr = HeaderRepr(r.in.hdr)>> >>
     [] OTHER -> << <<"unknown-op", FALSE>> >>
 TraceInit == l = TraceStart
 TraceNext == l <= Len(Recs) /\ Judge(Recs[l], Clauses(Recs[l])) /\ l' = l + 1
